@@ -22,6 +22,7 @@ type c28Params struct {
 	Script string `json:"script"` // which threads run in the window: S server-side writer, C second client writing, A add/remove nodes
 	Writes int    `json:"writes"` // writes per writer and node
 	Delay  bool   `json:"delay_bounded"`
+	Aged   int    `json:"items_created_before"` // >0: the server has handed out this many monitored item ids before the monitor subscribes
 }
 
 type c28Msg struct {
@@ -62,6 +63,25 @@ func c28Body(p c28Params) func() {
 		if _, err := m2.Subscribe(ctx, &opcua.SubscriptionParameters{Interval: 100 * time.Millisecond, MaxKeepAliveCount: 10, LifetimeCount: 1000},
 			func(*monitor.Subscription, *monitor.DataChangeMessage) {}, e.nodeID(2).String(), e.nodeID(1).String()); err != nil {
 			panic(err)
+		}
+		if p.Aged > 2 {
+			// a server that has been up for a while: its item ids have reached the range of the monitor's client handles
+			ch := make(chan *opcua.PublishNotificationData, 1024)
+			go func() {
+				for range ch {
+				}
+			}()
+			s0, err := c2.Subscribe(ctx, &opcua.SubscriptionParameters{Interval: time.Minute}, ch)
+			if err != nil {
+				panic(err)
+			}
+			var reqs []*ua.MonitoredItemCreateRequest
+			for i := 0; i < p.Aged-2; i++ {
+				reqs = append(reqs, opcua.NewMonitoredItemCreateRequestWithDefaults(e.nodeID(2), ua.AttributeIDDisplayName, uint32(5000+i)))
+			}
+			if _, err := s0.Monitor(ctx, ua.TimestampsToReturnNeither, reqs...); err != nil {
+				panic(err)
+			}
 		}
 		m, err := monitor.NewNodeMonitor(c)
 		if err != nil {
@@ -144,6 +164,11 @@ func c28Body(p c28Params) func() {
 		}
 		wg.Wait()
 		vrt.EndWindow()
+		// one more write to every node after the history: whatever the history did to the monitor's tables shows now
+		for k := 0; k < nodes; k++ {
+			e.ns.SetAttribute(e.nodeID(k), ua.AttributeIDValue, server.DataValueFromValue(c28Val(k, 500)))
+			e.ns.ChangeNotification(e.nodeID(k))
+		}
 		time.Sleep(time.Second) // writes have stopped: well over three publishing intervals
 		for k := 0; k < nodes; k++ {
 			v, _, err := readInt(ctx, c2, e.nodeID(k))
@@ -161,6 +186,9 @@ func c28Body(p c28Params) func() {
 
 func c28Check(p c28Params) func(x *vrt.Exec) (string, string, string) {
 	tag := fmt.Sprintf("c28/script=%s", p.Script)
+	if p.Aged > 0 {
+		tag += fmt.Sprintf("/item-ids-from=%d", p.Aged+1)
+	}
 	return func(x *vrt.Exec) (string, string, string) {
 		if out, sig, detail, failed := fail(x); failed {
 			if sig != "" {
@@ -210,7 +238,7 @@ func c28Scenarios(thorough bool) []driver.Scenario {
 	var out []driver.Scenario
 	add := func(p c28Params, bound int) {
 		out = append(out, driver.Scenario{
-			Name:   fmt.Sprintf("c28/script=%s/writes=%d/delay_bounded=%v", p.Script, p.Writes, p.Delay),
+			Name:   fmt.Sprintf("c28/script=%s/writes=%d/delay_bounded=%v/aged=%d", p.Script, p.Writes, p.Delay, p.Aged),
 			Params: p, Cfg: vrt.Config{Horizon: int64(time.Hour), MaxSteps: 5000000, DelayBounded: p.Delay},
 			Body: c28Body(p), Check: c28Check(p), Bound: max(bound, 0), Sequential: bound < 0,
 		})
@@ -219,6 +247,10 @@ func c28Scenarios(thorough bool) []driver.Scenario {
 		for _, w := range []int{1, 2} {
 			add(c28Params{Script: sc, Writes: w}, -1)
 		}
+	}
+	// every alignment of the server's item ids with the monitor's client handles (101, 102, 103)
+	for aged := 97; aged <= 104; aged++ {
+		add(c28Params{Script: "SA", Writes: 1, Aged: aged}, -1)
 	}
 	add(c28Params{Script: "SC", Writes: 1, Delay: true}, 1)
 	add(c28Params{Script: "SA", Writes: 1, Delay: true}, 1)
